@@ -705,6 +705,8 @@ def get_attr(ex, st, o, attr, node=None):
         return [(st, Func("repo", "%s::%s.%s" % (m.rel, ci.name, attr), bound=v.selfref))]
     if isinstance(v, ClassV):
         return class_attr(ex, st, v, attr)
+    if isinstance(v, Func) and v.kind == "builtin" and ("%s.%s" % (v.target, attr)) in BUILTINS:
+        return [(st, Func("builtin", "%s.%s" % (v.target, attr)))]       # e.g. pd.DataFrame.from_records
     if isinstance(v, Func) and v.kind == "builtin" and v.target == "pandas.Series" and (Vec, attr) in METHODS:
         # unbound method of Series (pd.Series.median passed around as an estimator): first argument is the receiver
         m = METHODS[(Vec, attr)]
@@ -1014,6 +1016,10 @@ def sf_implies(ex, st, e):
     # definitional facts introduced while evaluating the consequent (prefix functions, selections) are kept, guarded
     for f in s2.pc[npc:]:
         st.pc.append(z3.Implies(a, f))
+    # the registries of sums / functional values taken so far (only used to state congruence with later ones)
+    for gk, gv in s2.ghost.items():
+        if gk == "sums" or gk.startswith("vf:"):
+            st.ghost[gk] = gv
     return [(st, z3.Implies(a, _b(b)))]
 
 
